@@ -127,6 +127,37 @@ theorem co_seg_ok {bb : Option Name} {w w1 : World} (hw : Inv w) (hobjs : w1.obj
     StepOK_congr h0 rfl rfl rfl rfl rfl rfl rfl (Or.inr hop)
   exact StepOK_co h1 hA hguard x
 
+/-! ### creator_file re-entrancy: the master's callback into the creating object -/
+
+theorem withCfPre_good {bb : Option Name} {pol : Policy} {i : Nat} {run : Run} (hrun : GoodRun bb run) {w : World}
+    (hw : Inv w) {a : Oid} {A : Obj} (hA : getO w.objs a = some A) (active : Bool) (op : Op) (first : Bool) (name : String)
+    (k : World → Obj → Bool → World × List StepRec)
+    (hop : ∀ t, op ≠ .exportUid t) (hop2 : ∀ s, op ≠ .seteuidStr s)
+    (hk0 : Inv (k w A first).1 ∧ Chain bb w.objs (k w A first).2 (k w A first).1.objs ∧ Keeps w.objs (k w A first).1.objs)
+    (hk1 : a = masterOid → ∀ (W : World) (A2 : Obj), Inv W → getO W.objs a = some A2 →
+      Inv (k W A2 false).1 ∧ Chain bb W.objs (k W A2 false).2 (k W A2 false).1.objs ∧ Keeps W.objs (k W A2 false).1.objs) :
+    Inv (withCfPre pol i run active w a op first name k).1 ∧
+    Chain bb w.objs (withCfPre pol i run active w a op first name k).2
+      (withCfPre pol i run active w a op first name k).1.objs ∧
+    Keeps w.objs (withCfPre pol i run active w a op first name k).1.objs := by
+  unfold withCfPre
+  simp only [hA]
+  by_cases hd : active = true ∧ pol.cfDrop i name = true ∧ a = masterOid
+  · rw [if_pos hd]
+    obtain ⟨h1, h2, h3⟩ := hrun w masterOid (.seteuidInt 0) hw
+    have hs0 : StepOK bb w.objs w (seg w a op none [] none first) :=
+      StepOK_congr (plain_seg_ok (bb := bb) hw a op .nobj first hop hop2) rfl rfl rfl rfl rfl rfl rfl (Or.inr hop)
+    cases hA2 : getO (run w masterOid (.seteuidInt 0)).1.objs a with
+    | none =>
+      simp only
+      exact ⟨h1, Chain.cons hs0 (Chain.append h2 (Chain.single (plain_seg_ok h1 _ _ _ _ hop hop2))), h3⟩
+    | some A2 =>
+      simp only
+      obtain ⟨k1, k2, k3⟩ := hk1 hd.2.2 _ A2 h1 hA2
+      exact ⟨k1, Chain.cons hs0 (Chain.append h2 k2), Keeps.trans h3 k3⟩
+  · rw [if_neg hd]
+    exact hk0
+
 /-! ### virtual objects -/
 
 theorem virtCore_good {bb : Option Name} {pol : Policy} {i : Nat} {run : Run} (hrun : GoodRun bb run) {w : World}
@@ -163,6 +194,33 @@ theorem keeps_doLoad (cfg : Cfg) (pol : Policy) (i : Nat) (w : World) (A : Obj) 
   · exact Keeps.of_eq h1
   · rw [h1]; exact Keeps.setO _ _
 
+theorem execLoadCore_good {cfg : Cfg} {pol : Policy} {i : Nat} {sub : Sub}
+    (hsub : GoodSub cfg.bb sub) {w : World} (hw : Inv w) {a : Oid} {A : Obj} (hA : getO w.objs a = some A) (p : Path)
+    (first : Bool) :
+    Inv (execLoadCore cfg pol i sub w a A p first).1 ∧
+    Chain cfg.bb w.objs (execLoadCore cfg pol i sub w a A p first).2 (execLoadCore cfg pol i sub w a A p first).1.objs ∧
+    Keeps w.objs (execLoadCore cfg pol i sub w a A p first).1.objs := by
+  have hopx : ∀ t, Op.load p ≠ .exportUid t := by intro t h; cases h
+  have hops : ∀ t, Op.load p ≠ .seteuidStr t := by intro t h; cases h
+  have hx := load_ok hw hA cfg pol i p
+  obtain ⟨hvs, hcase⟩ := doLoad_facts cfg pol i w A p
+  cases hc : createdNow (doLoad cfg pol i w A p).2.1 with
+  | none =>
+    simp only [execLoadCore, hc, singleF]
+    exact ⟨hx.inv, Chain.single (seg_of_recOf first hx), keeps_doLoad cfg pol i w A p⟩
+  | some o =>
+    simp only [execLoadCore, hc]
+    obtain ⟨hy1, hy2, hy3⟩ := hsub (doLoad cfg pol i w A p).1 o.oid p.name hx.inv
+    have hx' : StepOK cfg.bb w.objs (doLoad cfg pol i w A p).1
+        (recOf (doLoad cfg pol i w A p).1 a (.load p) none (doLoad cfg pol i w A p).2.1 (doLoad cfg pol i w A p).2.2.2) := by
+      have := hx
+      unfold recOfR at this
+      rw [hvs] at this
+      exact this
+    refine ⟨hy1, ?_, Keeps.trans (keeps_doLoad cfg pol i w A p) hy3⟩
+    exact Chain.cons (creation_seg_ok first hx' hopx)
+      (Chain.append hy2 (Chain.single (final_seg_ok hy1 a (.load p) _ hopx hops)))
+
 theorem execLoad_good {cfg : Cfg} {pol : Policy} {i : Nat} {run : Run} {sub : Sub} (hrun : GoodRun cfg.bb run)
     (hsub : GoodSub cfg.bb sub) {w : World} (hw : Inv w) {a : Oid} {A : Obj} (hA : getO w.objs a = some A) (p : Path) :
     Inv (execLoad cfg pol i run sub w a A p).1 ∧
@@ -177,24 +235,9 @@ theorem execLoad_good {cfg : Cfg} {pol : Policy} {i : Nat} {run : Run} {sub : Su
     simp only [execLoad, hn, if_true]
     exact ⟨h1, Chain.append h2 (Chain.single (plain_seg_ok h1 _ _ _ _ hopx hops)), h3⟩
   have hn' : needsCompile w A p = false := by simpa using hn
-  have hx := load_ok hw hA cfg pol i p
-  obtain ⟨hvs, hcase⟩ := doLoad_facts cfg pol i w A p
-  cases hc : createdNow (doLoad cfg pol i w A p).2.1 with
-  | none =>
-    simp only [execLoad, hn', Bool.false_eq_true, if_false, hc]
-    exact ⟨hx.inv, Chain.single (seg_of_recOf true hx), keeps_doLoad cfg pol i w A p⟩
-  | some o =>
-    simp only [execLoad, hn', Bool.false_eq_true, if_false, hc]
-    obtain ⟨hy1, hy2, hy3⟩ := hsub (doLoad cfg pol i w A p).1 o.oid p.name hx.inv
-    have hx' : StepOK cfg.bb w.objs (doLoad cfg pol i w A p).1
-        (recOf (doLoad cfg pol i w A p).1 a (.load p) none (doLoad cfg pol i w A p).2.1 (doLoad cfg pol i w A p).2.2.2) := by
-      have := hx
-      unfold recOfR at this
-      rw [hvs] at this
-      exact this
-    refine ⟨hy1, ?_, Keeps.trans (keeps_doLoad cfg pol i w A p) hy3⟩
-    exact Chain.cons (creation_seg_ok true hx' hopx)
-      (Chain.append hy2 (Chain.single (final_seg_ok hy1 a (.load p) _ hopx hops)))
+  simp only [execLoad, hn', Bool.false_eq_true, if_false]
+  exact withCfPre_good hrun hw hA _ _ _ _ _ hopx hops (execLoadCore_good hsub hw hA p true)
+    (fun _ W A2 hW hA2 => execLoadCore_good hsub hW hA2 p false)
 
 /-! ### reload_object -/
 
@@ -286,12 +329,16 @@ theorem clonePre_none {w : World} {A : Obj} {newOid : Oid} {p : Path} (h : clone
 
 /-- the clone itself, from the world `W` reached after the blueprint's create() script and the repeated euid test -/
 theorem cloneTail_good {cfg : Cfg} {pol : Policy} {i : Nat} {sub : Sub} (hsub : GoodSub cfg.bb sub) {W : World}
-    (hW : Inv W) {A' : Obj} (hA' : getO W.objs A'.oid = some A') (hguard : ¬ (A'.oid ≠ masterOid ∧ A'.euid = none))
+    (hW : Inv W) {a : Oid} {A' : Obj} (hA'' : getO W.objs a = some A') (hguard' : ¬ (a ≠ masterOid ∧ A'.euid = none))
     (newOid : Oid) (p : Path) (first : Bool) :
-    Inv (cloneTail cfg pol i sub W A'.oid A' newOid p first).1 ∧
-    Chain cfg.bb W.objs (cloneTail cfg pol i sub W A'.oid A' newOid p first).2
-      (cloneTail cfg pol i sub W A'.oid A' newOid p first).1.objs ∧
-    Keeps W.objs (cloneTail cfg pol i sub W A'.oid A' newOid p first).1.objs := by
+    Inv (cloneTail cfg pol i sub W a A' newOid p first).1 ∧
+    Chain cfg.bb W.objs (cloneTail cfg pol i sub W a A' newOid p first).2
+      (cloneTail cfg pol i sub W a A' newOid p first).1.objs ∧
+    Keeps W.objs (cloneTail cfg pol i sub W a A' newOid p first).1.objs := by
+  have hAo := (getO_some hA'').2
+  subst hAo
+  have hA' := hA''
+  have hguard := hguard'
   let c := cloneSelf cfg pol i W A' newOid p
   let y := sub c.1 newOid (p.name ++ "#")
   have htl : cloneTail cfg pol i sub W A'.oid A' newOid p first =
@@ -393,7 +440,76 @@ theorem clonePhase2_good {cfg : Cfg} {pol : Policy} {i : Nat} {run : Run} {sub :
         exact ⟨h1, Chain.append h2 (Chain.single (plain_seg_ok h1 _ _ _ _ hopx hops)), h3⟩
       · simp only [clonePhase2, hA]
         rw [if_neg hguard, if_neg hv]
-        exact cloneTail_good hsub hW hA hguard newOid p first
+        exact withCfPre_good hrun hW hA _ _ _ _ _ hopx hops (cloneTail_good hsub hW hA hguard newOid p first)
+          (fun hm W2 A2 hW2 hA2 => cloneTail_good hsub hW2 hA2 (fun h => h.1 hm) newOid p false)
+
+theorem cloneBlueprint_good {cfg : Cfg} {pol : Policy} {i : Nat} {run : Run} {sub : Sub} (hrun : GoodRun cfg.bb run)
+    (hsub : GoodSub cfg.bb sub) {w : World} (hw : Inv w) {a : Oid} {A : Obj} (hA' : getO w.objs a = some A)
+    (hguard' : ¬ (a ≠ masterOid ∧ A.euid = none)) (newOid : Oid) (p : Path) (first : Bool) :
+    Inv (cloneBlueprint cfg pol i run sub w a A newOid p first).1 ∧
+    Chain cfg.bb w.objs (cloneBlueprint cfg pol i run sub w a A newOid p first).2
+      (cloneBlueprint cfg pol i run sub w a A newOid p first).1.objs ∧
+    Keeps w.objs (cloneBlueprint cfg pol i run sub w a A newOid p first).1.objs := by
+  have hAo := (getO_some hA').2
+  subst hAo
+  have hA := hA'
+  have hguard := hguard'
+  have hopx : ∀ t, Op.clone newOid p ≠ .exportUid t := by intro t h; cases h
+  have hops : ∀ t, Op.clone newOid p ≠ .seteuidStr t := by intro t h; cases h
+  by_cases hcf : pol.cf i p.name = .err
+  · obtain ⟨e1, e2, e3, _⟩ := create_err (cfg := cfg) (w := w) (A := A) (oid := p.oid) (bp := true) hcf
+    simp only [cloneBlueprint]
+    rw [if_pos e3]
+    have hs : StepOK cfg.bb w.objs (create cfg pol i w A p.oid p.name true).1
+        (recOf (create cfg pol i w A p.oid p.name true).1 A.oid (.clone newOid p) none
+          [(create cfg pol i w A p.oid p.name true).2.1] (.err .policy)) := by
+      apply stepOK_created hw hA hguard _ (by simp [isCreatingOp])
+      · exact Inv_same hw _ e1
+      · intro e he
+        rw [e1] at he
+        exact Or.inl (hw.wf e he)
+      · intro c hc m hm
+        simp at hc
+        subst hc
+        rw [e2] at hm; simp at hm
+      · intro c hc
+        simp at hc
+        subst hc
+        rw [e2]; simp [madeOk]
+    exact ⟨hs.inv, Chain.single (seg_of_recOf first hs), Keeps.of_eq e1⟩
+  · obtain ⟨e1, e2, e3⟩ := create_ok (cfg := cfg) (w := w) (A := A) (oid := p.oid) (bp := true) hcf
+    have hg := giveUid_spec cfg A (pol.cf i p.name)
+    have hs : StepOK cfg.bb w.objs (create cfg pol i w A p.oid p.name true).1
+        (recOf (create cfg pol i w A p.oid p.name true).1 A.oid (.clone newOid p) none
+          [(create cfg pol i w A p.oid p.name true).2.1] (.oid newOid)) := by
+      apply stepOK_created hw hA hguard _ (by simp [isCreatingOp])
+      · exact Inv_setO hw _ hg.1 _ e1
+      · intro e he
+        rw [e1] at he
+        rcases frame_setO hw.wf he with h | h
+        · exact Or.inr ⟨(create cfg pol i w A p.oid p.name true).2.1, by simp, by rw [e2, h]⟩
+        · exact Or.inl h
+      · intro c hc m hm
+        simp at hc
+        subst hc
+        rw [e2] at hm
+        simp at hm
+        subst hm
+        simp [e1, getO_setO]
+      · intro c hc
+        simp at hc
+        subst hc
+        rw [e2]
+        exact madeOk_created (by simp [recOf, isCreatingOp]) (by simpa [recOf] using hA)
+          (by simpa [recOf] using guard_or hguard) hcf hg.2
+    obtain ⟨hy1, hy2, hy3⟩ := hsub (create cfg pol i w A p.oid p.name true).1 p.oid p.name hs.inv
+    obtain ⟨h4, h5, h6⟩ := clonePhase2_good (cfg := cfg) (pol := pol) (i := i) hrun hsub hy1 A.oid newOid p false
+    simp only [cloneBlueprint]
+    rw [if_neg (by rw [e3]; simp)]
+    refine ⟨h4, ?_, ?_⟩
+    · exact Chain.cons (creation_seg_ok first hs hopx) (Chain.append hy2 h5)
+    · refine Keeps.trans ?_ (Keeps.trans hy3 h6)
+      rw [e1]; exact Keeps.setO _ _
 
 theorem execClone_good {cfg : Cfg} {pol : Policy} {i : Nat} {run : Run} {sub : Sub} (hrun : GoodRun cfg.bb run)
     (hsub : GoodSub cfg.bb sub) {w : World} (hw : Inv w) {a : Oid} {A : Obj} (hA : getO w.objs a = some A)
@@ -430,61 +546,10 @@ theorem execClone_good {cfg : Cfg} {pol : Policy} {i : Nat} {run : Run} {sub : S
         | err =>
           simp only
           exact ⟨h1, Chain.append h2 (Chain.single (plain_seg_ok h1 _ _ _ _ hopx hops)), h3⟩
-      · have hex' : p.exists = true := by simpa using hex
-        by_cases hcf : pol.cf i p.name = .err
-        · obtain ⟨e1, e2, e3, _⟩ := create_err (cfg := cfg) (w := w) (A := A) (oid := p.oid) (bp := true) hcf
-          simp only [execClone, hpre]
-          rw [if_neg hl, if_neg hex, if_pos e3]
-          have hs : StepOK cfg.bb w.objs (create cfg pol i w A p.oid p.name true).1
-              (recOf (create cfg pol i w A p.oid p.name true).1 A.oid (.clone newOid p) none
-                [(create cfg pol i w A p.oid p.name true).2.1] (.err .policy)) := by
-            apply stepOK_created hw hA hguard _ (by simp [isCreatingOp])
-            · exact Inv_same hw _ e1
-            · intro e he
-              rw [e1] at he
-              exact Or.inl (hw.wf e he)
-            · intro c hc m hm
-              simp at hc
-              subst hc
-              rw [e2] at hm; simp at hm
-            · intro c hc
-              simp at hc
-              subst hc
-              rw [e2]; simp [madeOk]
-          exact ⟨hs.inv, Chain.single (seg_of_recOf true hs), Keeps.of_eq e1⟩
-        · obtain ⟨e1, e2, e3⟩ := create_ok (cfg := cfg) (w := w) (A := A) (oid := p.oid) (bp := true) hcf
-          have hg := giveUid_spec cfg A (pol.cf i p.name)
-          have hs : StepOK cfg.bb w.objs (create cfg pol i w A p.oid p.name true).1
-              (recOf (create cfg pol i w A p.oid p.name true).1 A.oid (.clone newOid p) none
-                [(create cfg pol i w A p.oid p.name true).2.1] (.oid newOid)) := by
-            apply stepOK_created hw hA hguard _ (by simp [isCreatingOp])
-            · exact Inv_setO hw _ hg.1 _ e1
-            · intro e he
-              rw [e1] at he
-              rcases frame_setO hw.wf he with h | h
-              · exact Or.inr ⟨(create cfg pol i w A p.oid p.name true).2.1, by simp, by rw [e2, h]⟩
-              · exact Or.inl h
-            · intro c hc m hm
-              simp at hc
-              subst hc
-              rw [e2] at hm
-              simp at hm
-              subst hm
-              simp [e1, getO_setO]
-            · intro c hc
-              simp at hc
-              subst hc
-              rw [e2]
-              exact madeOk_created (by simp [recOf, isCreatingOp]) (by simpa [recOf] using hA)
-                (by simpa [recOf] using guard_or hguard) hcf hg.2
-          obtain ⟨hy1, hy2, hy3⟩ := hsub (create cfg pol i w A p.oid p.name true).1 p.oid p.name hs.inv
-          obtain ⟨h4, h5, h6⟩ := clonePhase2_good (cfg := cfg) (pol := pol) (i := i) hrun hsub hy1 A.oid newOid p false
-          simp only [execClone, hpre]
-          rw [if_neg hl, if_neg hex, if_neg (by rw [e3]; simp)]
-          refine ⟨h4, ?_, ?_⟩
-          · exact Chain.cons (creation_seg_ok true hs hopx) (Chain.append hy2 h5)
-          · refine Keeps.trans ?_ (Keeps.trans hy3 h6)
-            rw [e1]; exact Keeps.setO _ _
+      · simp only [execClone, hpre]
+        rw [if_neg hl, if_neg hex]
+        exact withCfPre_good hrun hw hA _ _ _ _ _ hopx hops (cloneBlueprint_good hrun hsub hw hA hguard newOid p true)
+          (fun hm W2 A2 hW2 hA2 => cloneBlueprint_good hrun hsub hW2 hA2 (fun h => h.1 hm) newOid p false)
 
 /-! ### one op, and any fuel -/
 
